@@ -21,7 +21,9 @@
 EXTENDS Integers, Sequences, FiniteSets, TLC
 
 CONSTANTS Others, Stake, NBatches,
-          Weak      \* attack models: "drop_cancelled_pending" (cancelled entries are removed from pending_replies)
+          Down,     \* peers that refuse connections: what is sent to them waits in the sender's buffer, nothing is written, nothing acknowledged
+          Weak      \* attack models: "drop_cancelled_pending" (cancelled entries are removed from pending_replies),
+                    \*                "bounded_buffer" (the buffer for an unreachable peer keeps 2 messages; a dropped handle counts as completed)
 
 Me == 0
 RECURSIVE Sum(_)
@@ -47,12 +49,18 @@ Seal ==
   /\ sealed < NBatches
   /\ LET b == sealed + 1 IN
      /\ sealed' = b
-     /\ wire' = [p \in Others |-> Append(wire[p], b)]
+     /\ wire' = [p \in Others |-> IF p \in Down THEN wire[p] ELSE Append(wire[p], b)]
      /\ pend' = [p \in Others |->
+                   IF p \in Down THEN pend[p] ELSE
                    LET q == IF "drop_cancelled_pending" \in Weak THEN Keep(pend[p], {x \in 1..NBatches : <<x, p>> \in open}) ELSE pend[p]
                    IN Append(q, b)]
      /\ open' = open \cup {<<b, p>> : p \in Others}
-  /\ UNCHANGED <<done, acked, head, counted, released>>
+     \* attack model: beyond 2 buffered messages for an unreachable peer the newest is dropped together with its handle, and the
+     \* quorum waiter takes a dropped handle for a completed one
+     /\ done' = IF "bounded_buffer" \in Weak
+                THEN done \cup {<<b, p>> : p \in {x \in Down : Cardinality({h \in open : h[2] = x}) >= 2}}
+                ELSE done
+  /\ UNCHANGED <<acked, head, counted, released>>
 \* peer p answers the oldest frame it has not answered yet; the sender pairs the ACK with the front of pending_replies
 Ack(p) ==
   /\ wire[p] # <<>>
@@ -87,5 +95,7 @@ ReleasedWithQuorumOfAcks == \A i \in 1..Len(released) : Stake[Me] + Sum(acked[re
 ReleasedInOrder == \A i \in 1..Len(released) : released[i] = i
 \* the pairing the reliable sender relies on: what the sender waits for is what the peer has not answered
 PairingAligned == \A p \in Others : pend[p] = wire[p]
+\* nothing is released while the reachable peers together with the node hold less than a quorum
+UnreachableQuorumBlocks == (Stake[Me] + Sum(Others \ Down) < Quorum) => released = <<>>
 Prompt == \A b \in 1..NBatches : []((b <= sealed /\ \A c \in 1..b : Stake[Me] + Sum(acked[c]) >= Quorum) => <>(Len(released) >= b))
 =============================================================================
